@@ -15,7 +15,7 @@
    refinement across growth for Grow.v (what is still not proved: iteration during growth
    and the pointer-level details of Model.v, which are tied by correspondence only); the
    nil-map theorems and the two refutations are about Model.v. *)
-From LLGoV Require Import C06.Model C06.Simple C06.SimpleRun C06.Proofs C06.Grow C06.GrowRun C06.GrowProofs.
+From LLGoV Require Import C06.Model C06.Simple C06.SimpleRun C06.Proofs C06.Grow C06.GrowRun C06.GrowProofs C06.Flags C06.FlagsProofs.
 Local Open Scope N_scope.
 
 Section Layer1.
@@ -221,3 +221,32 @@ Theorem iter_yields_only_present_refuted : exists x : config * list op,
   yields_present [] (snd x) (run_history x) = false.
 Proof. exact nan_clear_refuted. Qed.
 Print Assumptions iter_yields_only_present_refuted.
+
+(* ---------- key-type analysis of ssa/abi/map.go (Flags.v; compared with hashMightPanic /
+   IsReflexive / needkeyupdate / MapTypeFlags on generated key types) ---------- *)
+(* the HashMightPanic flag is set exactly when an interface type is reachable from the key type
+   through array elements (of any length), struct fields and underlying types: exactly then the
+   hash of a key can panic on an unhashable dynamic value, and the nil / empty map fast paths of
+   mapaccess1 / mapaccess2 / mapdelete must still call the hasher *)
+Theorem hash_might_panic_iff_interface_reachable : forall t : kty,
+  hash_might_panic t = true <-> reaches_iface t.
+Proof. exact hash_might_panic_iff. Qed.
+Print Assumptions hash_might_panic_iff_interface_reachable.
+
+(* a key type is reflexive exactly when neither a float / complex nor an interface is reachable *)
+Theorem is_reflexive_iff_no_float_no_interface : forall t : kty,
+  is_reflexive t = false <-> (reaches_float t \/ reaches_iface t).
+Proof. exact is_reflexive_iff. Qed.
+Print Assumptions is_reflexive_iff_no_float_no_interface.
+
+(* whenever the hash might panic the key is re-stored on overwrite and the type is not reflexive *)
+Theorem hash_might_panic_implies_flags : forall t : kty, hash_might_panic t = true ->
+  need_key_update t = true /\ is_reflexive t = false.
+Proof. exact hmp_implies. Qed.
+Print Assumptions hash_might_panic_implies_flags.
+
+Example flags_nontrivial :
+  map key_flags [KArr 2 KIface; KNamed (KArr 2 KIface); KStruct [KBasic BInt; KArr 1 KIface];
+                 KArr 2 (KArr 1 KIface); KArr 1 (KStruct [KIface]); KArr 2 (KBasic BFloat); KStruct [KBasic BString; KPtr]]
+  = [24; 24; 24; 24; 24; 8; 12].
+Proof. reflexivity. Qed.
